@@ -448,7 +448,7 @@ fn sweep_ranges<S: PageSize>(r: &mut Rep, a: &Args) {
     }
     if a.thorough() && a.shard == 0 {
         // long ranges (iteration time bound only)
-        let n = 200_000u64;
+        let n = 200_000u64.min((1u64 << 46) / size);
         range_case::<S>(r, "PageRange", GAP_HI_START, GAP_HI_START + n * size);
         range_case::<S>(r, "PageRangeInclusive", (0u64.wrapping_sub(size)).wrapping_sub((n - 1) * size), 0u64.wrapping_sub(size));
         range_case::<S>(r, "PhysFrameRange", 0, n * size);
